@@ -4,6 +4,7 @@ import (
 	"fmt"
 	"html/template"
 	"regexp"
+	"strconv"
 	"strings"
 
 	"verifmc/engine"
@@ -505,6 +506,27 @@ func c06Spellings(t *engine.T) {
 			}
 			return "value", nil
 		})
+	}
+	// float comparison and arithmetic are float64's own, exactly: no tolerance, no rounding of operands
+	fls := []string{"0.1", "0.2", "0.3", "0.7", "1.1", "0.30000000000000004", "0.3333333333", "1.0", "3.0", "0.0000000001", "100000000.1"}
+	for _, a := range fls {
+		for _, b := range fls {
+			for _, c := range fls {
+				a, b, c := a, b, c
+				fa, _ := strconv.ParseFloat(a, 64)
+				fb, _ := strconv.ParseFloat(b, 64)
+				fc, _ := strconv.ParseFloat(c, 64)
+				src := `<%= ` + a + ` + ` + b + ` == ` + c + ` %>|<%= ` + a + ` + ` + b + ` != ` + c + ` %>|<%= ` + a + ` + ` + b + ` > ` + c + ` %>|<%= ` + a + ` + ` + b + ` <= ` + c + ` %>|<%= ` + a + ` / ` + b + ` == ` + c + ` %>|<%= ` + a + ` * ` + b + ` == ` + c + ` %>|<%= ` + a + ` - ` + b + ` == ` + c + ` %>`
+				want := fmt.Sprintf("%v|%v|%v|%v|%v|%v|%v", fa+fb == fc, fa+fb != fc, fa+fb > fc, fa+fb <= fc, fa/fb == fc, fa*fb == fc, fa-fb == fc)
+				t.Case("float exactness "+q(src), true, func() (string, *engine.Fail) {
+					out, err := Render(src, plush.NewContext())
+					if err != nil || out != want {
+						return "", engine.Failf("mismatch", "reference (float64): %q, got %q / %v", want, out, err)
+					}
+					return "value", nil
+				})
+			}
+		}
 	}
 	// ~= is a regular-expression match of the right operand's text against the left string
 	for _, c := range []struct{ s, re string }{
